@@ -4,4 +4,9 @@ MODULES = [
     "contracts.c03_finite",
     "contracts.gw_logic",
     "contracts.c04_state",
+    "contracts.c05_replies",
+    "contracts.gw_more",
+    "contracts.gw_calls",
+    "contracts.c02_codec",
+    "contracts.c09_ota",
 ]
